@@ -15,6 +15,14 @@ Context {V : Type}.
 
 Definition lru := list (Z * V).     (* front = most recently used *)
 
+(* Keys >= NaNBase stand for NaN float arguments.  A NaN is not equal to any key, itself
+   included: a Go map lookup never finds it and every insertion creates a new element (the
+   harness gives each NaN occurrence an id of its own).  [lru_find] is the hash-map lookup
+   `c.items[key]`. *)
+Definition NaNBase : Z := 1000.
+Definition lru_find (k : Z) (l : lru) : option V :=
+  if NaNBase <=? k then None else alookup k l.
+
 (* remove the (first) binding of k *)
 Fixpoint lru_del (k : Z) (l : lru) : lru :=
   match l with
@@ -29,21 +37,21 @@ Definition lru_trim (cap : Z) (l : lru) : lru :=
 (* LRU.AddIfAbsent: present -> MoveToFront, return the prior value (the stored value is kept);
    absent -> PushFront, evict the oldest element if the size is exceeded, return nil *)
 Definition lru_add_if_absent (cap : Z) (k : Z) (v : V) (l : lru) : lru * option V :=
-  match alookup k l with
+  match lru_find k l with
   | Some old => ((k, old) :: lru_del k l, Some old)
   | None => (lru_trim cap ((k, v) :: l), None)
   end.
 
 (* LRU.Get: present -> MoveToFront, return the value; absent -> nothing changes *)
 Definition lru_get (k : Z) (l : lru) : lru * option V :=
-  match alookup k l with
+  match lru_find k l with
   | Some old => ((k, old) :: lru_del k l, Some old)
   | None => (l, None)
   end.
 
 (* LRU.Add: present -> MoveToFront and overwrite; absent -> PushFront + evict *)
 Definition lru_add (cap : Z) (k : Z) (v : V) (l : lru) : lru :=
-  match alookup k l with
+  match lru_find k l with
   | Some _ => (k, v) :: lru_del k l
   | None => lru_trim cap ((k, v) :: l)
   end.
